@@ -27,6 +27,7 @@ structure St where
   -- allocator oracle: position-indexed one-shot failures
   calls : Nat := 0
   failAt : List Nat := []
+  failFrom : Option Nat := none     -- every call from this position on fails
   log : List String := []
 deriving Repr
 
@@ -34,11 +35,11 @@ def init (g : Geo) : St := { tableCap := g.initPools }
 
 def St.alloc (s : St) (size : Nat) : Bool × St :=
   let n := s.calls + 1
-  let fail := s.failAt.contains n
+  let fail := s.failAt.contains n || (match s.failFrom with | some k => n ≥ k | none => false)
   (!fail, { s with calls := n, log := s!"A{size}{if fail then "!" else ""}" :: s.log })
 def St.realloc (s : St) (size : Nat) (growing : Bool) : Bool × St :=
   let n := s.calls + 1
-  let fail := growing && s.failAt.contains n
+  let fail := growing && (s.failAt.contains n || (match s.failFrom with | some k => n ≥ k | none => false))
   (!fail, { s with calls := n, log := s!"R{size}{if fail then "!" else ""}" :: s.log })
 def St.dealloc (s : St) : St := { s with log := "D" :: s.log }
 
@@ -69,7 +70,7 @@ def addPool (g : Geo) (s : St) : Bool × St :=
   let (ok, s) := if s.pools.length == s.tableCap then increaseCapacity g s else (true, s)
   if !ok then (false, s) else
   let count := s.pools.length + 1
-  let cap := if g.wrap count == g.maxPools then g.poolCap - 1 else g.poolCap
+  let cap := if g.wrap count == g.maxPools then g.nullSlot - (g.maxPools - 1) * g.poolCap else g.poolCap
   let (got, s) := s.alloc (cap * g.slotSize)
   (true, { s with pools := s.pools ++ [{ cap := if got then cap else 0, usage := 0, hasBlock := got }] })
 
